@@ -144,6 +144,11 @@ func JSONValue(t *rapid.T, label string, depth int) any {
 	case 3:
 		return float64(rapid.Int64Range(-(1<<53), 1<<53).Draw(t, label+"-i"))
 	case 4:
+		// (now and then a number beyond the 64-bit integers)
+		if rapid.IntRange(0, 5).Draw(t, label+"-huge") == 0 {
+			return rapid.SampledFrom([]float64{1e19, -1e19, 9223372036854775808, 18446744073709551615, 1.5e300, -9223372036854777856}).Draw(t, label+"-hugeval")
+		}
+
 		return float64(rapid.IntRange(-1000, 1000).Draw(t, label+"-f")) / 8
 	case 5:
 		n := rapid.IntRange(0, 3).Draw(t, label+"-n")
